@@ -23,6 +23,9 @@ class FakeSigner(object):
         self.log = log if log is not None else []
 
     def Sign(self, data):
+        if not isinstance(data, bytes):
+            # python-rsa's sign_hash/transform.bytes2int and cryptography's sign() accept `bytes` only
+            raise TypeError("FakeSigner.Sign: token must be bytes like the real signers require, got %s" % type(data).__name__)
         self.log.append(("sign", self.tag, bytes(data)))
         return b"SIG<" + self.tag.encode() + b">" + bytes(data)
 
@@ -139,6 +142,19 @@ def prepare_push_source(op, out):
     raise env.HarnessError("bad push source kind %r" % kind)
 
 
+def make_decoy_cwd(op, out):
+    """A working directory that is NOT the pushed directory but contains entries named like the pushed files (sub-directories, or files with other content)."""
+    d = os.path.join(out.tmpdir, "cwd-%d" % len(os.listdir(out.tmpdir)))
+    os.mkdir(d)
+    for name, _ in op["src"]["files"]:
+        if op["cwd_decoys"] == "dirs":
+            os.mkdir(os.path.join(d, name))
+        else:
+            with open(os.path.join(d, name), "wb") as f:
+                f.write(b"DECOY-" + name.encode("utf8"))
+    return d
+
+
 class FailingBytesIO(io.BytesIO):
     """A destination whose write() starts failing (disk full) after `ok_writes` successful writes."""
 
@@ -216,7 +232,17 @@ def build(scn, async_=None, lock_factory=None):
     if scn.get("fresh_sim_on_reconnect"):
         hcfg = dict(scn.get("healthy_device") or dcfg)
         hcfg["_verify"] = dcfg["_verify"]
-        factory = lambda: new_sim(hcfg, Tape(scn.get("healthy_tape") or ()))
+        def factory():
+            cfg = hcfg
+            if scn.get("stale_replay"):
+                # what the broken session's streams still had to say is delivered behind the new CNXN (only streams the host really opened there)
+                old = out.sims[-1]
+                stale = []
+                pairs = [(s_.rid, s_.lid) for s_ in old.streams[-3:]]
+                for rid, lid in pairs:
+                    stale += [(wire.A_OKAY, rid, lid, b""), (wire.A_WRTE, rid, lid, b"STALE-%d" % lid), (wire.A_CLSE, rid, lid, b"")]
+                cfg = dict(hcfg, after_cnxn=stale)
+            return new_sim(cfg, Tape(scn.get("healthy_tape") or ()))
     core = WireCore(sim, clock, scn.get("transport"), sim_factory=factory)
     mod = L.adb_device_async if api == "async" else L.adb_device
     tr = MemTransportAsync(core) if api == "async" else MemTransport(core)
@@ -307,6 +333,8 @@ def run_op_sync(dev, op, i, out):
         cwd = os.getcwd()
         if op.get("chdir_into") and isinstance(src, str) and os.path.isdir(src):
             os.chdir(src)
+        elif op.get("cwd_decoys") and isinstance(src, str) and os.path.isdir(src):
+            os.chdir(make_decoy_cwd(op, out))
         try:
             return dev.push(src, op["path"], st_mode=op.get("mode", 0o100770), mtime=op.get("mtime", 0),
                             progress_callback=make_callback(op.get("cb"), out, i), **_kw(op, ("transport_timeout_s", "read_timeout_s")))
@@ -363,6 +391,8 @@ async def run_op_async(dev, op, i, out):
         cwd = os.getcwd()
         if op.get("chdir_into") and isinstance(src, str) and os.path.isdir(src):
             os.chdir(src)
+        elif op.get("cwd_decoys") and isinstance(src, str) and os.path.isdir(src):
+            os.chdir(make_decoy_cwd(op, out))
         try:
             return await dev.push(src, op["path"], st_mode=op.get("mode", 0o100770), mtime=op.get("mtime", 0),
                                   progress_callback=make_callback(op.get("cb"), out, i), **_kw(op, ("transport_timeout_s", "read_timeout_s")))
